@@ -136,12 +136,13 @@ var propertyConfigs = map[string]*propertyConfig{
 	"C19": {
 		ID: "C19", Packages: []string{"./..."}, Level: "proof",
 		Explain: "Acceptance-soundness bridge: rlwe.CheckModuli / checkSizeParams / checkModuliLogSize are under contract; their postconditions say that an accepted moduli chain satisfies the precondition under which the ring kernels and the lazy NTT schedule were verified " +
-			"(every Q modulus < 2^61 and prime, every P modulus prime and - this part FAILS, known finding KF4 - below 2^61, 4 <= logN <= 20, requested sizes in ]0,60] / ]0,61]).  NewParameters calls CheckModuli and returns its error (by inspection; the constructor itself is outside the subset).  " +
+			"(every Q modulus < 2^61 and prime, every P modulus prime and - this part FAILS, known finding KF4 - below 2^61, 4 <= logN <= 20, requested sizes in ]0,60] / ]0,61]).  On success no prime of P is a prime of Q (finding F24, repaired).  NewParameters calls CheckModuli and returns its error (by inspection; the constructor itself is outside the subset).  " +
+			"Prime generation (ring.NewNTTFriendlyPrimesGenerator, NextDownstreamPrime, NextAlternatingPrime): a representation invariant of the generator (both candidates congruent to 1 modulo NthRoot, the downstream candidate strictly below the upstream one) is established by the constructor (the downstream sequence starts one step below 2^BitSize + 1) and kept by both methods; every value returned is prime (oracle), congruent to 1 modulo NthRoot, on its own side of the starting point and the candidates move apart, hence no prime is returned twice (monotonicity argument over the contracts, stated); the subtraction and addition of NthRoot do not wrap.  " +
 			"bgv.NewParameters (abstract contract, go/ssa): a plaintext modulus accepted without error is non-zero and is not one of the moduli of Q (membership through assumed contracts on Parameters.Q and slices.Contains).",
 		Assumptions: []string{
 			"primality oracle ring.IsPrime = math/big.ProbablyPrime(0), exact below 2^64 (assumed contract)",
 			"P moduli in [2^61, 2^62) are accepted (LogP = 61 requests generate primes just above 2^61 and shipped bootstrapping sets use them): for those the kernel precondition q < 2^61 is NOT implied; known finding KF4 with a failing input (62-bit P: the NTT of ringP is wrong), DESIGN.md 13.8",
-			"NOT decided: prime generation from bit sizes (float log2 window), the remaining plaintext-modulus checks of bgv.NewParameters (t <= Q[0], cyclotomic order of t), the 128-bit security table, JSON round trip",
+			"NOT decided: the bit-size windows of the prime generator (float log2 tests: unknown booleans) and NextUpstreamPrime (its only overflow guard is such a test), the NTT-friendliness check of SubRing.generateNTTConstants, the remaining plaintext-modulus checks of bgv.NewParameters (t <= Q[0], cyclotomic order of t), the 128-bit security table, JSON round trip",
 		},
 		Trusted: stdTrusted,
 	},
